@@ -8,6 +8,8 @@ from ..runner import Sub
 from .c01 import call_simplifier, SIMPLIFIERS, cases as c01_cases
 
 ID = 'C08'
+TECHNIQUE = 'PBT over the parameterised demo pipeline + per-stage subsequence/height invariants + coordinate round trip'
+LEVEL_TEXT = 'Exploration: Completion and stage invariants on ~6.4k pipelines per quick run incl. bundled traces and integer-typed curves. Finds counter-examples (shrunk to a replay file); never proves absence.'
 RULE = ('Case = the demos\' pipeline, parameterised: (performance curve n >= 4 incl. the bundled traces; simplifier '
         'with its configuration (5); detector (5) with t1; corner threshold; linkage (4) x cluster threshold x '
         'ranking mode (4)).  Oracle: every stage completes under the loop guard; multi_knee -> worst-knee -> '
